@@ -4,13 +4,16 @@ C10 — no request or response can make validation of a valid document panic.
 Full-strength goal (DESIGN §4):
     valid_doc_no_panic : DocValid d → ∀ traffic, outcome d traffic ≠ panic ∧ outcome d traffic ≠ diverge
 The current tree deviates in four places, so what is proved is `valid_doc_no_panic_partial` under the
-decidable exclusion `ExclC10` (four disjuncts, each with a kernel-checked witness below and an open entry
+decidable exclusion `ExclC10` (the finding classes below, each with a kernel-checked witness below and an open entry
 in known_findings.d/C10.json):
   F-C10-1  UnguardedRecursion     (DESIGN §7 #6)  `A: {allOf:[{$ref:A}]}` → unbounded recursion
   F-C10-2  LiteralTemplateMiss    (new)           legacy router: request path is literally a template that
                                                   does not match itself (`/a/{x}.json`) → nil dereference
   F-C10-3  PortUnclosed           (new)           gorillamux NewRouter: server URL with `:{` not followed by `}`
   F-C10-4  ContentParamNoSchema   (new)           parameter described by `content: {application/json: {}}`
+  F-C10-5  EmptyRecursion         (new)           `L: {items: {$ref: L}}`: `Schema.IsEmpty` follows a cycle of schemas
+                                                  without own keywords (found by the differential run: the design
+                                                  prototype's `guarded_terminates` did not describe the code)
 plus the translator obligation `all_sites_discharged` over the regenerated panic-site table.
 -/
 import KinModel.PanicSites
@@ -129,17 +132,24 @@ theorem fuel_monotone (Γ : Recursion.Env) (k fuel : Nat) (s : Recursion.S) (v :
     (h : Recursion.visit Γ fuel s v = .ok b) : Recursion.visit Γ (fuel + k) s v = .ok b :=
   (Recursion.visit_mono_k Γ k).1 fuel s v b h
 
-/-- witness F-C10-1: `A: {allOf: [{$ref: A}]}` is undecided for every amount of fuel and every value -/
+/-- witness F-C10-1: `A: {nullable: true, allOf: [{$ref: A}]}` is undecided for every amount of fuel and every value -/
 theorem unguarded_recursion_diverges (v : Recursion.J) (fuel : Nat) :
     Recursion.visit Recursion.Γ6 fuel (.ref 0) v = .diverge := (Recursion.unguarded_diverges v fuel).1
 
-/-- a recursive schema whose cycle passes through `items` is decided for every value -/
+/-- witness F-C10-5: `L: {items: {$ref: L}}` — a guarded cycle of schemas without own keywords — is undecided
+    for every amount of fuel and every value, because `IsEmpty` follows the cycle -/
+theorem emptiness_recursion_diverges (v : Recursion.J) (fuel : Nat) :
+    Recursion.visit Recursion.ΓE fuel (.ref 0) v = .diverge := Recursion.emptiness_diverges v fuel
+
+/-- a recursive schema with a keyword of its own whose cycle passes through `items` is decided for every value -/
 theorem guarded_recursion_terminates (v : Recursion.J) :
     Recursion.visit Recursion.ΓL (Recursion.fuelFor v) (.ref 0) v = .ok true := Recursion.guarded_terminates v
 
 theorem unguarded_cycle_detected :
-    Recursion.hasUnguardedCycle [.node [.ref 0] none] = true ∧
-    Recursion.hasUnguardedCycle [.node [] (some (.ref 0))] = false := by decide
+    Recursion.hasUnguardedCycle [.node true [.ref 0] none] = true ∧
+    Recursion.hasUnguardedCycle [.node true [] (some (.ref 0))] = false ∧
+    Recursion.hasEmptinessCycle [.node false [] (some (.ref 0))] 50 = true ∧
+    Recursion.hasEmptinessCycle [.node true [] (some (.ref 0))] 50 = false := by decide
 
 /-! ## request, response, error conversion -/
 
